@@ -32,7 +32,7 @@ ASSUMPTIONS = [
     "oracle: the Python function executed; points where Python raises or returns a non-finite / non-real value are outside the domain",
     "expression evaluated by xreplace (simultaneous, structural) + evalf; an exception from fn_to_sympy counts as a visible refusal",
 ]
-N = {"quick": 120, "thorough": 3000}
+N = {"quick": 120, "thorough": 9000}
 MIN_NONTRIVIAL = {"quick": 100, "thorough": 2500}
 LATTICE = [-1.0, 0.0, 0.5, 1.0, 2.0]
 
